@@ -274,6 +274,10 @@ func (w *World) errPropagated(fn *ssa.Function, call ssa.CallInstruction) (bool,
 	if ri < 0 {
 		return false, "function has no error result"
 	}
+	// a callee whose error result is the constant nil at every return cannot fail: nothing to propagate
+	if g := call.Common().StaticCallee(); g != nil && w.isMain(g) && g.Blocks != nil && constNilAtEveryReturn(g, ei) {
+		return true, ""
+	}
 	used := false
 	for _, ifi := range w.ifsTesting(fn, errNil(call)) {
 		used = true
@@ -722,7 +726,6 @@ func isParamSSA(fn *ssa.Function, v ssa.Value, i int) bool {
 	v = strip(v)
 	return i >= 0 && i < len(fn.Params) && v == ssa.Value(fn.Params[i])
 }
-
 
 // msgParamIndex: position of fn's only parameter of type *Message (receiver excluded), fallback when there is none or
 // several. Rules that speak about "the message a function handles" find it by type, not by a frozen position.
